@@ -7,6 +7,8 @@
   driver on every run (`repair` stream): rules well-founded and zero-free,
   expansion equal to the input, identifier width sufficient.
 -/
+import CSD.Generated.Bodies
+import CSD.Model.SourceText
 import CSD.Lemmas.RePair
 
 namespace CSD.Props.C20
@@ -39,5 +41,12 @@ theorem repair_bits_suffice (g : Grammar) (x : Nat) (h : x ≤ g.rules.length + 
 example : Run ⟨256, []⟩ [97, 98, 97, 98, 0] ⟨256, [(97, 98)]⟩ [256, 256, 0] :=
   Run.step 97 98 (by decide) (by decide) (by decide) (by decide)
     (Repl.replace (Repl.replace (Repl.keep 0 Repl.nil))) (Run.refl _ _)
+
+/-- The models this file's theorems are about were written against the current text of the C++
+functions they mirror (`CSD/Generated/Bodies.lean` is re-extracted from the sources on every run,
+`CSD/Model/SourceText.lean` is what was reviewed): an edit of one of these functions breaks this
+obligation even if no generated input tells the behaviours apart. -/
+theorem models_match_source_text :
+    Generated.body_RePair_expandRule = SourceText.body_RePair_expandRule := rfl
 
 end CSD.Props.C20
